@@ -896,6 +896,7 @@ def shard(kind, seed, known=(), **kw):
                 if v.key not in {x["key"] for x in out.violations}:
                     out.add(v)
                 if len(out.violations) >= 5:
+                    stats.extra["grid_stopped_early"] = 1
                     break
         stats.extra["grid_cells"] = len(mine)
     elif kind == "hyp":
@@ -910,7 +911,7 @@ def shard(kind, seed, known=(), **kw):
                 out.add(v)
     elif kind == "real":
         signal.signal(signal.SIGALRM, _alarm)
-        signal.alarm(kw.get("timeout", 900))
+        signal.alarm(kw.get("timeout", 3600))
         try:
             ncase = 0
             for case in real_cases(kw["pool_kind"], kw["procs"],
@@ -942,27 +943,29 @@ def shard(kind, seed, known=(), **kw):
 def run(ctx):
     nmax, csmax = (12, 13) if ctx.quick else (16, 17)
     parts = 12 if ctx.quick else 16
-    kws = [dict(kind="anticipated", seed=ctx.seed)]
-    kws += [
-        dict(kind="grid", seed=ctx.seed * 1000 + i, part=i, parts=parts,
-             nmax=nmax, csmax=csmax)
-        for i in range(parts)
-    ]
     n_small, n_big = (250, 25) if ctx.quick else (6000, 400)
-    kws += [
-        dict(kind="hyp", seed=ctx.seed * 1000 + 100 + i, n_small=n_small,
-             n_big=n_big)
-        for i in range(16)
-    ]
-    kws += [
+    # real-pool groups first: each gets a worker that has run nothing else
+    kws = [
         dict(kind="real", seed=ctx.seed * 1000 + 200 + 10 * j + k,
              pool_kind=pk, procs=k, full=not ctx.quick)
         for j, pk in enumerate(REAL_KINDS)
         for k in (1, 2, 3, 4)
     ]
+    kws += [dict(kind="anticipated", seed=ctx.seed)]
+    kws += [
+        dict(kind="grid", seed=ctx.seed * 1000 + i, part=i, parts=parts,
+             nmax=nmax, csmax=csmax)
+        for i in range(parts)
+    ]
+    kws += [
+        dict(kind="hyp", seed=ctx.seed * 1000 + 100 + i, n_small=n_small,
+             n_big=n_big)
+        for i in range(16)
+    ]
     out = run_shards("vf.checks.c10", "shard", kws)
     expected = len(grid_cells(nmax, csmax))
-    if not out.violations and out.stats.extra.get("grid_cells") != expected:
+    if not out.stats.extra.get("grid_stopped_early") and \
+            out.stats.extra.get("grid_cells") != expected:
         raise HarnessError(
             f"grid incomplete: {out.stats.extra.get('grid_cells')} of "
             f"{expected} cells"
